@@ -550,8 +550,51 @@ static void v_once(const plan_t *p)
     g_run.nontrivial = maxreach >= 2;
 }
 
+/* one resize that moves the size by more than 2^32 elements, with a constructor and a destructor (real memory: 4-8 GiB,
+ * 2^33 callback invocations; thorough tier only): a loop counter narrower than size_t would stop early */
+static uint64_t g_ncons, g_ndest, g_bad; static unsigned char *g_lo, *g_hi, *g_next;
+static void giant_cons(void *obj, void *priv) { (void)priv; if ((unsigned char *)obj != g_next || g_next >= g_hi) g_bad++; else *(unsigned char *)obj = 0x5a; g_next++; g_ncons++; }
+static void giant_dest(void *obj, void *priv) { (void)priv; g_next--; if ((unsigned char *)obj != g_next || g_next < g_lo) g_bad++; g_ndest++; }
+static void giant_vector(const plan_t *p)
+{
+    struct simheap_cfg hc = { RP_INPLACE_FIT, (uint64_t)1 << 35, 0 };
+    static cstl_vector_t gv; static size_t sz, cap; static unsigned char *base; static void *at;
+    size_t n = ((size_t)1 << 32) + 3 + (size_t)(p->cfg[CF_MAXN] % 64), keep = 1 + (size_t)(p->cfg[CF_MAXN] % 5);
+    hc.junk = (unsigned char)p->cfg[CF_JUNK];
+    simheap_reset(&hc, p->cfg[CF_JUNK]);
+    sim_watchdog(400);
+    mode_g = 9; g_cur_prop = "C09"; g_cur_ctx = "giant-vector"; g_run.step = 0; g_run.opkind = V_RESIZE; g_run.steps++;
+    memset(&gv, (int)p->cfg[CF_JUNK], sizeof gv);
+    cstl_vector_init_complex(&gv, 1, giant_cons, giant_dest, NULL);
+    g_ncons = g_ndest = g_bad = 0;
+    TRY(cstl_vector_reserve(&gv, n));
+    TRY(cap = cstl_vector_capacity(&gv));
+    if (cap < n) { EVT("skip", 0, 0, 0); return; }             /* the machine cannot provide 4 GiB: nothing to examine */
+    base = cstl_vector_data(&gv); g_lo = base; g_hi = base + n; g_next = base;
+    TRY(cstl_vector_resize(&gv, n));
+    if (g_aborted) sim_violation("C09/abort/resize/giant-vector", "resize to 2^32+%zu elements aborted although the capacity was reserved", n - ((size_t)1 << 32));
+    TRY(sz = cstl_vector_size(&gv));
+    if (sz != n) sim_violation("C09/size/resize/giant-vector", "size() is %zu after resize(%zu)", sz, n);
+    if (cstl_vector_data(&gv) != base) sim_violation("C09/moved/resize/giant-vector", "resize within the reserved capacity moved the storage");
+    if (g_ncons != n || g_bad) sim_violation("C09/cons_count/resize/giant-vector", "a resize from 0 to 2^32+%zu elements ran the constructor %llu times (%llu of them on the wrong slot): every element entering [0,size) is constructed exactly once, in order", n - ((size_t)1 << 32), (unsigned long long)g_ncons, (unsigned long long)g_bad);
+    TRY(at = cstl_vector_at(&gv, n - 1));
+    if (g_aborted || at != base + (n - 1) || *(unsigned char *)at != 0x5a) sim_violation("C09/at_address/at/giant-vector", "at(size-1) beyond 2^32 does not address the last constructed element");
+    TRY(cstl_vector_resize(&gv, keep));
+    TRY(sz = cstl_vector_size(&gv));
+    if (sz != keep) sim_violation("C09/size/resize/giant-vector", "size() is %zu after resize(%zu)", sz, keep);
+    if (g_ndest != n - keep || g_bad) sim_violation("C09/dest_count/resize/giant-vector", "a resize from 2^32+%zu to %zu elements ran the destructor %llu times (%llu of them on the wrong slot)", n - ((size_t)1 << 32), keep, (unsigned long long)g_ndest, (unsigned long long)g_bad);
+    TRY(cstl_vector_clear(&gv));
+    if (g_ndest != n) sim_violation("C09/dest_count/clear/giant-vector", "after clear the destructor has run %llu times for %zu constructed elements", (unsigned long long)g_ndest, n);
+    if (simheap_live_count(TAG_LIB) != 0) sim_violation("C09/leak/clear/giant-vector", "storage still held after clear");
+    simheap_audit("C09", "giant-vector");
+    PROBE("giant_vector_above_2^32");
+    EVT("giant", n, keep, 0);
+    g_run.nontrivial = 1;
+}
+
 static void v_exec(const plan_t *p)
 {
+    if (p->mode == 109) { giant_vector(p); return; }
     if (p->mode == 16) faultenum(p, v_once); else v_once(p);
 }
 
@@ -563,6 +606,7 @@ static void v_gen(prng_t *r, int mode, plan_t *p)
     int nops = huge ? 6 + (int)prng_below(r, 8) : longrun ? 150 + (int)prng_below(r, 400) : small ? 2 + (int)prng_below(r, 7) : 8 + (int)prng_below(r, 42);
     int faults = mode == 9 && prng_chance(r, 3, 10), boundary = mode == 9 && prng_chance(r, 1, 4);
     int i;
+    if (mode == 109) { p->cfg[CF_JUNK] = 1 + prng_below(r, 254); p->cfg[CF_MAXN] = prng_below(r, 64); p->cfg[CF_NV] = 1; p->cfg[CF_ES] = 1; return; }
     if (mode == 16) nops = 8 + (int)prng_below(r, 22);
     p->cfg[CF_NV] = 1 + prng_below(r, 2);
     p->cfg[CF_ES] = (uint64_t)sizes[prng_below(r, sizeof sizes / sizeof sizes[0])];
